@@ -1,3 +1,5 @@
+import SccacheModel.Gen.Consts
+
 /-! # Model of the local-disk part of `config.rs`: `parse_size`, `bool_from_env_var`, the "Local" section of
 `config_from_env`, serde defaults of `[cache.disk]`, `CacheConfigs::merge`, `into_fallback`.
 
@@ -23,11 +25,15 @@ structure PP where
 deriving DecidableEq, Repr
 
 /-- `PreprocessorCacheModeConfig::default()` — note `use = false` -/
-def PP.dflt : PP := ⟨false, false, true, false, false, true⟩
+def PP.dflt : PP :=
+  match GenC.ppDefault with
+  | [a, b, c, d, e, f] => ⟨a, b, c, d, e, f⟩
+  | _ => ⟨false, false, true, false, false, true⟩
 /-- `PreprocessorCacheModeConfig::activated()` -/
 def PP.activated : PP := { PP.dflt with use := true }
 
-def tenGigs : Nat := 10 * 1024 * 1024 * 1024
+/-- `TEN_GIGS`, regenerated from config.rs -/
+def tenGigs : Nat := GenC.tenGigs
 
 /-- `DiskCacheConfig`; `dir = none` stands for `default_disk_cache_dir()` -/
 structure Disk where
@@ -63,10 +69,11 @@ def u64FromStr (s : Bytes) : Option Nat :=
 inductive SizeRes | none | some (n : Nat) | overflow
 deriving DecidableEq, Repr
 
+/-- the suffix table of `parse_size` is regenerated from config.rs -/
 def multiplierOf (s : Bytes) : Nat :=
   match s.getLast? with
-  | some 75 => 1024 | some 77 => 1024 * 1024 | some 71 => 1024 * 1024 * 1024 | some 84 => 1024 * 1024 * 1024 * 1024
-  | _ => 1
+  | some c => ((GenC.sizeSuffixes.find? (·.1 == c)).map (·.2)).getD 1
+  | none => 1
 
 /-- `parse_size` (`overflow` = `size * multiplier` leaves `u64`: a panic in debug builds, a wrapped value in release) -/
 def parseSize (s : Bytes) : SizeRes :=
@@ -80,12 +87,6 @@ def parseSize (s : Bytes) : SizeRes :=
 
 def lower (b : UInt8) : UInt8 := if 65 ≤ b && b ≤ 90 then b + 32 else b
 
-def sTrue : Bytes := [116, 114, 117, 101]
-def sOn : Bytes := [111, 110]
-def sFalse : Bytes := [102, 97, 108, 115, 101]
-def sOff : Bytes := [111, 102, 102]
-def s1 : Bytes := [49]
-def s0 : Bytes := [48]
 
 /-- `none` = the variable is unset (or not unicode); `error` makes `Config::load` fail -/
 def boolFromEnv (v : Option Bytes) : Except Unit (Option Bool) :=
@@ -93,12 +94,13 @@ def boolFromEnv (v : Option Bytes) : Except Unit (Option Bool) :=
   | none => .ok none
   | some b =>
     let l := b.map lower
-    if l = sTrue || l = sOn || l = s1 then .ok (some true)
-    else if l = sFalse || l = sOff || l = s0 then .ok (some false)
+    if GenC.boolTrueWords.contains l then .ok (some true)
+    else if GenC.boolFalseWords.contains l then .ok (some false)
     else .error ()
 
-def sReadOnly : Bytes := [82, 69, 65, 68, 95, 79, 78, 76, 89]
-def sReadWrite : Bytes := [82, 69, 65, 68, 95, 87, 82, 73, 84, 69]
+/-- the two accepted values of `SCCACHE_LOCAL_RW_MODE`, regenerated from config.rs -/
+def sReadOnly : Bytes := GenC.rwReadOnlyWord
+def sReadWrite : Bytes := GenC.rwReadWriteWord
 
 /-- the four disk-cache variables; `dir` is an `OsString` (any bytes), the others are read with `env::var`
     (the harness passes a non-unicode value as unset, which is what `.ok()` makes of it) -/
